@@ -143,9 +143,11 @@ VARIABLES
   rows, path, starts,   \* SchemaWriter state
   fake,      \* number of live aliasing vectors (impls/slice.rs)
   src,       \* "intact" | "freed": the caller's borrowed memory
-  faults     \* number of fault/short/interrupt decisions taken (bounds the sink's nondeterminism)
+  faults,    \* number of fault/short/interrupt decisions taken (bounds the sink's nondeterminism)
+  ncalls,    \* number of write_all calls made so far (history: identifies the call a fault hit)
+  fault      \* history: <<"none">> | <<"reject", call index, bytes of it accepted>> | <<"flush">> | <<"std">>
 
-serVars == <<prog, pc, pos, pos0, out, status, detail, padleft, cur, inwrite, rows, path, starts, fake, src, faults>>
+serVars == <<prog, pc, pos, pos0, out, status, detail, padleft, cur, inwrite, rows, path, starts, fake, src, faults, ncalls, fault>>
 
 CONSTANTS
   SinkGrain,    \* "call": each write_all is atomic (accept all | fail after a prefix)
@@ -157,6 +159,7 @@ SerInitWith(p, startPos) ==
   /\ prog = p /\ pc = 1 /\ pos = startPos /\ pos0 = startPos /\ out = <<>> /\ status = "run" /\ detail = <<>>
   /\ padleft = -1 /\ cur = <<>> /\ inwrite = FALSE
   /\ rows = <<>> /\ path = <<>> /\ starts = <<>> /\ fake = 0 /\ src = "intact" /\ faults = 0
+  /\ ncalls = 0 /\ fault = <<"none">>
 
 Running == status = "run" /\ pc <= Len(prog)
 CurOp == prog[pc]
@@ -170,14 +173,15 @@ Fail(st, d) ==
 \* "call" grain: accepted entirely
 CallAccept(buf, nextpc, nextpad) ==
   /\ out' = out \o buf /\ pos' = pos + Len(buf)
-  /\ pc' = nextpc /\ padleft' = nextpad
-  /\ UNCHANGED <<status, detail, src, cur, inwrite, faults>>
+  /\ pc' = nextpc /\ padleft' = nextpad /\ ncalls' = ncalls + 1
+  /\ UNCHANGED <<status, detail, src, cur, inwrite, faults, fault>>
 \* "call" grain: the underlying writer took k < Len(buf) bytes and then failed
 \* (for an empty buffer a WriteNoStd sink can still reject the call)
 CallReject(buf, k) ==
   /\ SinkFaulty
   /\ out' = out \o SubSeq(buf, 1, k)
   /\ Fail("WriteError", <<>>)
+  /\ fault' = <<"reject", ncalls, k>> /\ ncalls' = ncalls + 1
   /\ UNCHANGED <<pos, pc, padleft, cur, inwrite, faults>>
 
 \* the write_all call made by the current op, and where to go after it
@@ -187,10 +191,10 @@ WriteAll(buf, nextpc, nextpad) ==
        \/ \E k \in 0..Max(0, Len(buf) - 1) : CallReject(buf, k)
   ELSE \* std grain: start the loop; an empty buffer makes no write() call at all
        IF buf = <<>>
-       THEN /\ pc' = nextpc /\ padleft' = nextpad
-            /\ UNCHANGED <<out, pos, status, detail, src, cur, inwrite, faults>>
-       ELSE /\ cur' = buf /\ inwrite' = TRUE
-            /\ UNCHANGED <<out, pos, status, detail, src, pc, padleft, faults>>
+       THEN /\ pc' = nextpc /\ padleft' = nextpad /\ ncalls' = ncalls + 1
+            /\ UNCHANGED <<out, pos, status, detail, src, cur, inwrite, faults, fault>>
+       ELSE /\ cur' = buf /\ inwrite' = TRUE /\ ncalls' = ncalls + 1
+            /\ UNCHANGED <<out, pos, status, detail, src, pc, padleft, faults, fault>>
 
 \* where the op in progress continues after its write_all completes
 AfterWrite ==
@@ -210,19 +214,19 @@ StdTake(n) ==
           /\ pos' = pos0 + Len(out')       \* WriterWithPos adds buf.len() once write_all returns Ok
           /\ pc' = AfterWrite[1] /\ padleft' = AfterWrite[2]
      ELSE /\ cur' = SubSeq(cur, n + 1, Len(cur)) /\ UNCHANGED <<inwrite, pos, pc, padleft>>
-  /\ UNCHANGED <<status, detail, src>>
+  /\ UNCHANGED <<status, detail, src, ncalls, fault>>
 StdInterrupted ==
   /\ inwrite /\ status = "run" /\ SinkFaulty /\ faults < MaxFaults
   /\ faults' = faults + 1
-  /\ UNCHANGED <<out, pos, pc, padleft, cur, inwrite, status, detail, src>>
+  /\ UNCHANGED <<out, pos, pc, padleft, cur, inwrite, status, detail, src, ncalls, fault>>
 StdZero ==    \* write() returned Ok(0): ErrorKind::WriteZero
   /\ inwrite /\ status = "run" /\ SinkFaulty
-  /\ Fail("WriteError", <<>>) /\ inwrite' = FALSE
-  /\ UNCHANGED <<out, pos, pc, padleft, cur, faults>>
+  /\ Fail("WriteError", <<>>) /\ inwrite' = FALSE /\ fault' = <<"std">>
+  /\ UNCHANGED <<out, pos, pc, padleft, cur, faults, ncalls>>
 StdError ==   \* write() returned another error
   /\ inwrite /\ status = "run" /\ SinkFaulty
-  /\ Fail("WriteError", <<>>) /\ inwrite' = FALSE
-  /\ UNCHANGED <<out, pos, pc, padleft, cur, faults>>
+  /\ Fail("WriteError", <<>>) /\ inwrite' = FALSE /\ fault' = <<"std">>
+  /\ UNCHANGED <<out, pos, pc, padleft, cur, faults, ncalls>>
 
 (* ---- one action per WriteWithNames / WriteNoStd call ---- *)
 DoEnter ==
@@ -230,7 +234,7 @@ DoEnter ==
   /\ path' = Append(path, CurOp.name)
   /\ starts' = Append(starts, <<pos, Len(rows)>>)
   /\ pc' = pc + 1
-  /\ UNCHANGED <<prog, pos0, pos, out, status, detail, padleft, cur, inwrite, rows, fake, src, faults>>
+  /\ UNCHANGED <<prog, pos0, pos, out, status, detail, padleft, cur, inwrite, rows, fake, src, faults, ncalls, fault>>
 
 DoExit ==
   /\ Running /\ ~inwrite /\ CurOp.op = "exit"
@@ -239,7 +243,7 @@ DoExit ==
   /\ path' = SubSeq(path, 1, Len(path) - 1)
   /\ starts' = SubSeq(starts, 1, Len(starts) - 1)
   /\ pc' = pc + 1
-  /\ UNCHANGED <<prog, pos0, pos, out, status, detail, padleft, cur, inwrite, fake, src, faults>>
+  /\ UNCHANGED <<prog, pos0, pos, out, status, detail, padleft, cur, inwrite, fake, src, faults, ncalls, fault>>
 
 DoRaw ==
   /\ Running /\ ~inwrite /\ CurOp.op = "raw"
@@ -258,7 +262,7 @@ DoAlignStart ==
                 ELSE /\ pc' = pc /\ padleft' = pad
                      /\ rows' = Append(rows, Row(<<"PADDING">>, pos, pad, 1))
              /\ UNCHANGED <<status, detail, src>>
-  /\ UNCHANGED <<prog, pos0, pos, out, cur, inwrite, path, starts, fake, faults>>
+  /\ UNCHANGED <<prog, pos0, pos, out, cur, inwrite, path, starts, fake, faults, ncalls, fault>>
 
 \* one write_all(&[0]) per padding byte
 DoPadByte ==
@@ -278,35 +282,35 @@ DoZcCheck ==
   /\ IF CurOp.a = 1
      THEN pc' = pc + 1 /\ UNCHANGED <<status, detail, src>>
      ELSE Fail("panic", <<"check_zero_copy">>) /\ UNCHANGED pc
-  /\ UNCHANGED <<prog, pos0, pos, out, padleft, cur, inwrite, rows, path, starts, fake, faults>>
+  /\ UNCHANGED <<prog, pos0, pos, out, padleft, cur, inwrite, rows, path, starts, fake, faults, ncalls, fault>>
 
 DoFake ==
   /\ Running /\ ~inwrite /\ CurOp.op = "fake"
   /\ fake' = fake + 1 /\ pc' = pc + 1
-  /\ UNCHANGED <<prog, pos0, pos, out, status, detail, padleft, cur, inwrite, rows, path, starts, src, faults>>
+  /\ UNCHANGED <<prog, pos0, pos, out, status, detail, padleft, cur, inwrite, rows, path, starts, src, faults, ncalls, fault>>
 DoForget ==
   /\ Running /\ ~inwrite /\ CurOp.op = "forget"
   /\ fake' = fake - 1 /\ pc' = pc + 1
-  /\ UNCHANGED <<prog, pos0, pos, out, status, detail, padleft, cur, inwrite, rows, path, starts, src, faults>>
+  /\ UNCHANGED <<prog, pos0, pos, out, status, detail, padleft, cur, inwrite, rows, path, starts, src, faults, ncalls, fault>>
 
 DoIterCheck ==
   /\ Running /\ ~inwrite /\ CurOp.op = "itercheck"
   /\ IF CurOp.a = CurOp.b
      THEN pc' = pc + 1 /\ UNCHANGED <<status, detail, src>>
      ELSE Fail("LengthMismatch", <<CurOp.a, CurOp.b>>) /\ UNCHANGED pc
-  /\ UNCHANGED <<prog, pos0, pos, out, padleft, cur, inwrite, rows, path, starts, fake, faults>>
+  /\ UNCHANGED <<prog, pos0, pos, out, padleft, cur, inwrite, rows, path, starts, fake, faults, ncalls, fault>>
 
 DoFlush ==
   /\ Running /\ ~inwrite /\ CurOp.op = "flush"
-  /\ \/ status' = "ok" /\ pc' = pc + 1 /\ UNCHANGED <<detail, src>>
-     \/ SinkFaulty /\ Fail("WriteError", <<"flush">>) /\ UNCHANGED pc
-  /\ UNCHANGED <<prog, pos0, pos, out, padleft, cur, inwrite, rows, path, starts, fake, faults>>
+  /\ \/ status' = "ok" /\ pc' = pc + 1 /\ UNCHANGED <<detail, src, fault>>
+     \/ SinkFaulty /\ Fail("WriteError", <<"flush">>) /\ fault' = <<"flush">> /\ UNCHANGED pc
+  /\ UNCHANGED <<prog, pos0, pos, out, padleft, cur, inwrite, rows, path, starts, fake, faults, ncalls>>
 
 \* a body-only program has no flush: falling off the end is success
 DoEnd ==
   /\ status = "run" /\ pc = Len(prog) + 1 /\ ~inwrite
   /\ status' = "ok"
-  /\ UNCHANGED <<prog, pos0, pc, pos, out, detail, padleft, cur, inwrite, rows, path, starts, fake, src, faults>>
+  /\ UNCHANGED <<prog, pos0, pc, pos, out, detail, padleft, cur, inwrite, rows, path, starts, fake, src, faults, ncalls, fault>>
 
 StdStep ==
   /\ SinkGrain = "std"
